@@ -88,6 +88,7 @@ func (h *Hist) classList() []string {
 func (h *Hist) Key() string { return strings.Join(h.Ops, ";") }
 
 func newHist(t *rapid.T, cfg HistCfg) *Hist {
+	sim.CaseStart(t)
 	w := sim.NewWorld()
 	h := &Hist{T: t, W: w, Cfg: cfg, Classes: map[string]bool{}, startedAt: map[string]int{}}
 	h.A = w.AddNode("alice")
